@@ -49,7 +49,14 @@ def check(ctx):
     rep.add('G2', fi.site(dc), 'row labels are the query ids and column labels the reference ids (same orientation as the matrix operands)', q_ids.startswith('query') and r_ids.startswith('ref') and u(out_a) == 'output',
             expected='dump_dmat_csv(output, dmat, query_ids, ref_ids)', found=u(dc), stmt='label orientation')
     # ---- G1: per side, ids and sigs/files defined together in each branch
-    sides = {'query': (q_ids, q_sigs, 'query_files'), 'ref': (r_ids, r_sigs, 'ref_files')}
+    def files_var(ids):
+        for s_ in stmts_in(fn.body):
+            if isinstance(s_, ast.Assign) and isinstance(s_.targets[0], ast.Tuple) and len(s_.targets[0].elts) == 2 and u(s_.targets[0].elts[0]) == ids:
+                return u(s_.targets[0].elts[1])
+        return f'{ids}:files?'
+    sides = {'query': (q_ids, q_sigs, files_var(q_ids)), 'ref': (r_ids, r_sigs, files_var(r_ids))}
+    ksd = [s_ for s_ in fn.body if isinstance(s_, ast.Assign) and isinstance(s_.value, ast.Call) and (m.resolve_call(fi, s_.value) or '').endswith('kspec_from_params')]
+    KS = u(ksd[0].targets[0]) if len(ksd) == 1 else 'kspec'
     nbranches = 0
     for side, (ids, sigs, files) in sides.items():
         id_defs = [s for s in stmts_in(fn.body) if isinstance(s, ast.Assign) and any(ids in [u(e) for e in (t.elts if isinstance(t, ast.Tuple) else [t])] for t in s.targets)]
@@ -82,7 +89,8 @@ def check(ctx):
         if isinstance(s, ast.Assign) and isinstance(s.value, ast.Call) and (m.resolve_call(fi, s.value) or '').endswith('load_signatures'):
             loads[u(s.targets[0])] = [u(a) for a in s.value.args]
     rep.add('G1', fi.site(), 'each side loads its own signature file option', loads.get(q_sigs) == ['qs'] and loads.get(r_sigs) == ['rs'], expected={q_sigs: ['qs'], r_sigs: ['rs']}, found=loads, stmt='signature file options')
-    dbs = [s for s in stmts_in(fn.body) if isinstance(s, ast.Assign) and u(s.targets[0]) == r_sigs and u(s.value) in ('ctxobj.signatures', 'ctx.obj.signatures')]
+    ctx_aliases = {'ctx.obj'} | {u(x.targets[0]) for x in stmts_in(fn.body) if isinstance(x, ast.Assign) and u(x.value) == 'ctx.obj'}
+    dbs = [s for s in stmts_in(fn.body) if isinstance(s, ast.Assign) and u(s.targets[0]) == r_sigs and u(s.value) in {f'{a}.signatures' for a in ctx_aliases}]
     rep.add('G1', fi.site(dbs[0] if dbs else None), "--use-db takes the database's signatures as references", len(dbs) == 1 and ('true', 'use_db') in path_atoms(gm[dbs[0]]), expected='ref_sigs = ctx.obj.signatures under use_db',
             found=[u(x) for x in dbs], stmt='use_db source')
     # ---- G3: computed signatures
@@ -103,7 +111,7 @@ def check(ctx):
                 root = f'gambit.cli.common.get_sequence_files({", ".join(u(a) for a in nn[0].value.args)})@{nn[0].lineno}'
         at = path_atoms(gm[s])
         rep.add('G3', fi.site(s), f'{side} signatures are computed from this side\'s files (in file order), only when not pre-computed, with the reconciled parameters',
-                root.startswith('gambit.cli.common.get_sequence_files(') and ('is', 'None', sigs) in at and u(s.value.args[0]) == 'kspec', expected=f'{sigs} = calc_file_signatures(kspec, <{files}>) under {sigs} is None',
+                root.startswith('gambit.cli.common.get_sequence_files(') and ('is', 'None', sigs) in at and u(s.value.args[0]) == KS, expected=f'{sigs} = calc_file_signatures(kspec, <{files}>) under {sigs} is None',
                 found=(root, sorted(at), u(s.value.args[0])), stmt=f'{side} computed')
         idd = [x for x in stmts_in(fn.body) if isinstance(x, ast.Assign) and isinstance(x.targets[0], ast.Tuple) and ids in [u(e) for e in x.targets[0].elts]]
         same = idd and root == f'gambit.cli.common.get_sequence_files({", ".join(u(a) for a in idd[0].value.args)})@{idd[0].lineno}'
